@@ -142,7 +142,7 @@ func (cache *HevcCache) getPalyloadType(payload []byte) (vps, sps, pps, islice b
 	case hevc.NalStapInRtp: // 在RTP中的聚合（AP）
 		off := 2
 		// 循环读取被封装的NAL
-		for {
+		for off+2 < len(payload) { // 至少还有长度字段和 1 字节 NAL，防止越界
 			// nal长度
 			nalSize := ((uint16(payload[off])) << 8) | uint16(payload[off+1])
 			if nalSize < 1 {
